@@ -134,5 +134,13 @@ _PENDING = "rule module not yet built in this session (claimed in DESIGN.md; wil
 for _p in ["C01","C02","C03","C04","C05","C06","C07","C08","C09","C10","C11","C12","C13","C15","C16","C18","C20"]:
     if _p not in CLAIMED:
         na(_p, _PENDING)
-na("C14", "every clause is a numeric identity over all trees (path sums, NJ/UPGMA arithmetic, exact recovery); no structural necessary condition worth arming with static analysis")
+claim("C14",
+      "unit (dimension) inference over the distance-matrix classes, parallel-formula agreement between the length and step computations, table-mirroring agreement, CFG must-pass-through, flag polarity",
+      "Static, for the path-table clauses only: no sum mixes path lengths with step counts or bare integers and every table holds one unit; the length and step "
+      "accessors read and normalise by quantities of their own unit and the weighted switch selects them that way round; wherever a length and a step count are "
+      "stored for the same pair, replacing each edge-length term by 1 in the length formula gives the step formula; every pair table is mirrored (taxon matrix: "
+      "_mirror_lookups on every path; node matrix: mirrored stores in the same block); the recorded common ancestor of a pair across two children is the node being "
+      "processed; Tree.mrca re-encodes when asked and treemeasure.patristic_distance forwards the flag. NOT decided: that the sums are the true path sums for every "
+      "tree, the summaries, and everything about NJ and UPGMA (numeric; out of reach of this family).",
+      NOTE, "DESIGN.md section 2, C14 (as built: section 8)")
 na("C17", "formula correctness and floating-point threshold behaviour are value-level; the only shape fact would be a frozen source fragment, which is a false alarm in waiting")
